@@ -273,36 +273,42 @@ def mIte (g u v : Int) : MM Int := fun m => mIteF (m.tbl.nvars + 2) g u v m
 
 /-! ### `apply` -/
 
+/-- `v is not None and v not in self` -/
+def optNotMem (m : MddMgr) : Option Int → Bool
+  | some v => !m.mem v
+  | none => false
+
 /-- `MDD.apply(op, u, v, w)`: interpreter of the table regenerated from the source -/
-def mApply (op : String) (u : Int) (v w : Option Int) : MM Int := do
-  MM.liftE (assertOperatorArity op v w)
-  let m ← MM.get
-  if !m.mem u then MM.throw .value
-  match v with
-  | some v => if !m.mem v then MM.throw .value
-  | none => pure ()
-  match w with
-  | some w => if !m.mem w then MM.throw .value
-  | none => pure ()
+def mApply (op : String) (u : Int) (v w : Option Int) : MM Int := fun m =>
+  match assertOperatorArity op v w with
+  | .error e => (.error e, m)
+  | .ok _ =>
+  if !m.mem u then (.error .value, m) else
+  if optNotMem m v then (.error .value, m) else
+  if optNotMem m w then (.error .value, m) else
   match findRow op Gen.mddApplyTable with
-  | none => MM.throw .value
+  | none => (.error .value, m)
   | some row =>
     match row.templ with
-    | .neg => return -u
+    | .neg => (.ok (-u), m)
     | .ite a b c =>
       -- the `elif v is None` / `elif w is None` guards
-      let vv ← MM.ofOption .value v
+      match v with
+      | none => (.error .value, m)
+      | some vv =>
       let needsW := a = .w || a = .nw || b = .w || b = .nw || c = .w || c = .nw
-      let ww ← (if needsW then MM.ofOption .value w else pure (w.getD 0))
-      let a ← MM.liftE (atomVal u vv ww a)
-      let b ← MM.liftE (atomVal u vv ww b)
-      let c ← MM.liftE (atomVal u vv ww c)
-      mIte a b c
-    | .quant _ _ _ => MM.throw .other
+      match (if needsW then w else some (w.getD 0)) with
+      | none => (.error .value, m)
+      | some ww =>
+      match atomVal u vv ww a, atomVal u vv ww b, atomVal u vv ww c with
+      | .ok a', .ok b', .ok c' => mIte a' b' c' m
+      | _, _, _ => (.error .other, m)
+    | .quant _ _ _ => (.error .other, m)
     | .notImpl =>
-      let _ ← MM.ofOption .value v
-      MM.throw .notImplemented
-    | .bad => MM.throw .other
+      match v with
+      | none => (.error .value, m)
+      | some _ => (.error .notImplemented, m)
+    | .bad => (.error .other, m)
 
 /-! ### `collect_garbage` -/
 
